@@ -13,7 +13,7 @@ NEW_NOT_ON_PATH = ('proof {\n  assert forall |v: Seq<char>| inset(acyclic@, v) &
                    '      assert(path_before[i] == old(path)@[i]);\n      assert(onpath(path_before, v));\n    }\n  }\n}')
 UNIT = {
     'name': 'cycles',
-    'uses': ['use std::collections::{HashMap, HashSet};', 'use vstd::std_specs::iter::IteratorSpec;'],
+    'uses': ['use std::collections::{HashMap, HashSet};', 'use std::sync::Arc;', 'use vstd::std_specs::iter::IteratorSpec;'],
     'parts': [
         {'kind': 'vrs', 'file': 'common/string_keys.vrs'},
         {'kind': 'vrs', 'file': 'cycles/spec.vrs'},
@@ -81,9 +81,16 @@ UNIT = {
                             'invariant': [('ranked', 'wf(%s, acyclic@)' % G),
                                           ('nodes_so_far_are_finished', 'forall |j: int| 0 <= j < it.index@ ==> inset(acyclic@, (#[trigger] it.seq()[j])@)')],
                             'body_prefix': 'proof { assert(names(Seq::<&str>::empty()).push(node@).len() == 1); axiom_string_key_model(); assert(%s.dom().contains(*node)); lemma_universe0(%s, *node); }' % (G, G)}}},
+        {'kind': 'fn', 'src': M, 'path': 'impl ModelEvaluator::fn new', 'key': 'cycles::ModelEvaluator::new', 'props': P, 'auto_props': A, 'loops': 0, 'ret': 'r',
+         'impl_header': 'impl ModelEvaluator {', 'sig_rewrite': [(r'Result<Arc<Self>>', 'Result<Arc<ModelEvaluator>>')],
+         'rewrites': [('RX', 'R11', r'ModelEvaluator::default\(\)', 'model_evaluator_default()', 1),
+                      ('RX', 'R8w', r'model_evaluator\s*\.(\w+)\s*\.write\(\)\s*\.map_err\(err_write_lock_failed\)\?\s*\.build\(definitions(?:, (?:&model_evaluator|Arc::clone\(&model_evaluator\)))?\)\?;',
+                       r'build_registry_\1(&model_evaluator, definitions)?;', 8)],
+         'ensures': [('an_evaluator_is_built_only_over_well_founded_requirements', 'r is Ok ==> requirements_well_founded(*definitions)')]},
     ],
 }
-ASSUMPTIONS = ['A-std: vstd specifications of HashMap / HashSet / Vec; added axioms: a String / a &str obeys the hash-table key model and is looked up by its characters (contracts/common/string_keys.vrs, '
+ASSUMPTIONS = ['A-collect: ModelEvaluator::new is verified against check_cyclic_dependencies as a stub whose Ok answer means well-founded requirements; the eight registry builders are stubs that REQUIRE well-founded requirements (they recurse along them), RwLock write guards dropped (R8w: lock failure not modelled)',
+               'A-std: vstd specifications of HashMap / HashSet / Vec; added axioms: a String / a &str obeys the hash-table key model and is looked up by its characters (contracts/common/string_keys.vrs, '
                'contracts/cycles/prelude.vrs), <[&str]>::contains compares characters',
                'R24 stubs: `dependencies.get(node).map(|v| v.as_slice()).unwrap_or_default()` answers the requirements recorded under the node (none without a record); `trim_start_matches` only shapes the message',
                'R28: the scan is verified as a function of the collected graph; find_cycle terminates: every call puts one more node of the finite set of recorded and required nodes on the path or into the finished set (decreases: the nodes in neither)']
